@@ -226,6 +226,15 @@ def pcgrad(index, ctx):
             per_row = bool(elem_names & names_read(inner.iter))
             how = f"one randperm per row drawn up front (`{norm_text(binds[0])[:60]}`), the outer loop walks that list"
     ctx.require(per_row, "R1", "PCGrad: one random order per projected row", how, "the projection order is not drawn exactly once per projected row", _loc(fi, outer))
+    # ... on EVERY iteration: a draw that is skipped when the values say so makes the random stream of the later rows depend on the values (on their rounding, even)
+    for rp in inside:
+        st_rp = next((s_ for s_ in outer.body if any(x is rp for x in ast.walk(s_))), None)
+        nested = st_rp is not None and isinstance(st_rp, (ast.If, ast.While, ast.Try))
+        before = outer.body[:outer.body.index(st_rp)] if st_rp in outer.body else []
+        skipping = [s_ for s_ in before if isinstance(s_, ast.If) and any(isinstance(x, (ast.Continue, ast.Break)) for x in ast.walk(s_))]
+        ctx.require(not nested and not skipping, "R1", "PCGrad: the order of every row is drawn, whatever the values", "the draw is executed unconditionally in the loop over the rows",
+                    f"`{norm_text(getattr(skipping[0] if skipping else st_rp, 'test', st_rp))[:60]}` decides whether a random order is drawn for this row: the number of draws — and with it the orders of all later rows "
+                    "under a fixed seed — depends on the values of the matrix (an inner product that is exactly 0 for J is ±1e-8 for J·Q)", _loc(fi, skipping[0] if skipping else st_rp))
 
 
 # ------------------------------------------------------------------------------------------------ GradDrop
